@@ -275,7 +275,7 @@ func (m *c13Model) check(r *Run, c *bridgeChecks, s *Step, o *Outcome) []Violati
 			if approved[ob] {
 				vs = append(vs, viol("unbond-once", "unbond-while-approved", "%s: %s unbonded while still approved by governance", ch.Name, t.Tx.S))
 			}
-			if solo {
+			if solo && !m.get(ch.Name, ob).Readmitted {
 				mo := m.get(ch.Name, ob)
 				pen := prev.GetSlashAmount(pre.Params.SlashFraction)
 				got := w.App.BankKeeper.GetBalance(ctx, w.KeyByName(t.Tx.S).Acc(), "FX").Amount.Sub(m.balPre[ob].AmountOf("FX"))
@@ -364,7 +364,8 @@ func (m *c13Model) finish(r *Run, c *bridgeChecks) []Violation {
 			k := ch.oracleKey(w, i)
 			or, ok := v.Oracles[k.Bech()]
 			mo := m.get(ch.Name, k.Bech())
-			if ok && !or.Online && mo.RemovedByGov && !appr[k.Bech()] && mo.Known {
+			// (a readmitted oracle's ledger is unreliable: recorded known finding, see 11.4)
+			if ok && !or.Online && mo.RemovedByGov && !appr[k.Bech()] && mo.Known && !mo.Readmitted {
 				cands = append(cands, cand{ch, i, k})
 			}
 		}
